@@ -60,7 +60,26 @@ func report(i int, key string, ood bool, f string, a ...interface{}) {
 	oodCount[key]++
 }
 
+// op records one op; besides hx's count of distinct op lines it counts distinct (table, op line) pairs.
+var (
+	seenInTable = map[string]struct{}{}
+	tableOps    int
+)
+
+func op(line, out, label string, nontrivial bool) int {
+	if strings.HasPrefix(line, "reset ") {
+		seenInTable = map[string]struct{}{}
+	} else if nontrivial {
+		if _, ok := seenInTable[line]; !ok {
+			seenInTable[line] = struct{}{}
+			tableOps++
+		}
+	}
+	return run.Op(line, out, label, nontrivial)
+}
+
 func flushNotes() {
+	run.Extra["distinct_table_op_pairs"] = tableOps
 	keys := make([]string, 0, len(oodCount))
 	for k := range oodCount {
 		keys = append(keys, k)
@@ -235,7 +254,7 @@ func resetTable(bs []board) {
 	if t.invalid {
 		label += ":invalid-names"
 	}
-	i := run.Op(line, out, label, false)
+	i := op(line, out, label, false)
 	if !t.okSorted[0] {
 		fail(i, "sorted:byname", "BSorted[byName] = %v is not a sorted permutation of the %d boards", t.sorted[0], t.n)
 	}
@@ -270,7 +289,7 @@ func judgeBid(line, out string, q []byte) {
 	if len(ql) == 0 {
 		label += ":empty-name"
 	}
-	i := run.Op(line, out, label, !t.ood(0))
+	i := op(line, out, label, !t.ood(0))
 	if out == "PANIC" || out == "TIMEOUT" {
 		fail(i, "crash:bid", "GetBid(%q) %s (%s)", q, out, hx.LastPanic)
 		return
@@ -354,7 +373,7 @@ func judgeFind(line, out string, by ptttype.BSortBy, isAsc bool, cls, q []byte) 
 	if t.ood(k) {
 		label += ":out-of-domain"
 	}
-	i := run.Op(line, out, label, !t.ood(k))
+	i := op(line, out, label, !t.ood(k))
 	if out == "PANIC" || out == "TIMEOUT" {
 		fail(i, "crash:find-"+what, "%s %s (%s)", line, out, hx.LastPanic)
 		return
@@ -419,7 +438,7 @@ func judgeAuto(line, out string, isAsc bool, kw []byte) {
 	}
 	if cls == "nul" {
 		// a keyword with a NUL byte has no defined first match: compared with the model only
-		run.Op(line, out, label+":unjudged", false)
+		op(line, out, label+":unjudged", false)
 		return
 	}
 	pp := t.prefixed(kw)
@@ -438,7 +457,7 @@ func judgeAuto(line, out string, isAsc bool, kw []byte) {
 	if ood {
 		label += ":out-of-domain"
 	}
-	i := run.Op(line, out, label, !ood)
+	i := op(line, out, label, !ood)
 	if out == "PANIC" || out == "TIMEOUT" {
 		key := "crash:ac"
 		if cls == "longkw" || cls == "emptykw" {
@@ -509,11 +528,11 @@ func judgeWalk(line, out string, auto bool, by ptttype.BSortBy, isAsc bool, n in
 	k := int(by)
 	label := "walk:" + listingName(auto, k) + ":" + dirName(isAsc)
 	if n < 1 {
-		run.Op(line, out, label+":n<1:unjudged", true)
+		op(line, out, label+":n<1:unjudged", true)
 		return
 	}
 	if auto && bytes.IndexByte(kw, 0) >= 0 {
-		run.Op(line, out, label+":nul:unjudged", true)
+		op(line, out, label+":nul:unjudged", true)
 		return
 	}
 	vis := t.visible(auto, k, isAsc, kw)
@@ -548,7 +567,7 @@ func judgeWalk(line, out string, auto bool, by ptttype.BSortBy, isAsc bool, n in
 	if ood {
 		label += ":out-of-domain"
 	}
-	i := run.Op(line, out, label, !ood)
+	i := op(line, out, label, !ood)
 	if !t.okSorted[k] || out == want {
 		return
 	}
@@ -582,11 +601,11 @@ func judgePage(line, out string, auto bool, by ptttype.BSortBy, isAsc bool, n in
 	k := int(by)
 	label := "page:" + listingName(auto, k) + ":" + dirName(isAsc)
 	if n < 1 {
-		run.Op(line, out, label+":n<1:unjudged", true)
+		op(line, out, label+":n<1:unjudged", true)
 		return
 	}
 	if auto && (bytes.IndexByte(kw, 0) >= 0) {
-		run.Op(line, out, label+":nul:unjudged", true)
+		op(line, out, label+":nul:unjudged", true)
 		return
 	}
 	ord := t.sorted[k]
@@ -612,7 +631,7 @@ func judgePage(line, out string, auto bool, by ptttype.BSortBy, isAsc bool, n in
 	} else {
 		if k == 1 && bytes.IndexByte(cname, '@') >= 0 {
 			// the by-class cursor string cannot carry a name with '@': the real code must refuse it
-			i := run.Op(line, out, label+":cursor-with-@", true)
+			i := op(line, out, label+":cursor-with-@", true)
 			if out != "invalid-params" {
 				fail(i, "walk:class-cursor", "a by-class cursor whose name contains '@' was not refused: %s", out)
 			}
@@ -621,7 +640,7 @@ func judgePage(line, out string, auto bool, by ptttype.BSortBy, isAsc bool, n in
 		want, kind := t.nearest(k, isAsc, c.cls, qlow(cname))
 		label += ":cursor-" + kind
 		if len(want) != 1 {
-			run.Op(line, out, label+":ambiguous:unjudged", true)
+			op(line, out, label+":ambiguous:unjudged", true)
 			return
 		}
 		start = want[0] - 1
@@ -629,7 +648,7 @@ func judgePage(line, out string, auto bool, by ptttype.BSortBy, isAsc bool, n in
 			start = -1
 		}
 		if auto && start >= 0 && !bytes.HasPrefix(t.low[ord[start]], lower(kw)) {
-			run.Op(line, out, label+":foreign-cursor:unjudged", true)
+			op(line, out, label+":foreign-cursor:unjudged", true)
 			return
 		}
 	}
@@ -675,7 +694,7 @@ func judgePage(line, out string, auto bool, by ptttype.BSortBy, isAsc bool, n in
 	if ood {
 		label += ":out-of-domain"
 	}
-	i := run.Op(line, out, label, !ood)
+	i := op(line, out, label, !ood)
 	if !t.okSorted[k] || out == want {
 		return
 	}
